@@ -332,12 +332,15 @@ ReplaceDouble ==
           /\ DegOK(node.dg) /\ prog' = prog \o v1 \o v2 \o <<node>>
 
 \* replacement values that must be refused when the replacement is constructed
+\* the K smallest ids of a set (K = F.nbad bounds the refused values tried per category)
+SmallestK(S, k) == {q \in S : Cardinality({r \in S : r < q}) < k}
 BadValues(x) ==
-    LET fv == Nd(L).fv IN
-    {[x |-> x, kind |-> "const-shape", id |-> c] : c \in {c \in ConstIds : ConstPool[c].sh # ArgPool[x].sh /\ ConstPool[c].dt = ArgPool[x].dt}}
-    \cup {[x |-> x, kind |-> "const-dtype", id |-> c] : c \in {c \in ConstIds : ConstPool[c].sh = ArgPool[x].sh /\ ConstPool[c].dt # ArgPool[x].dt}}
-    \cup {[x |-> x, kind |-> "argobj-shape", id |-> b] : b \in {b \in ArgIds : ArgPool[b].sh # ArgPool[x].sh /\ ArgPool[b].dt = ArgPool[x].dt}}
-    \cup {[x |-> x, kind |-> "argobj-dtype", id |-> b] : b \in {b \in ArgIds : ArgPool[b].sh = ArgPool[x].sh /\ ArgPool[b].dt # ArgPool[x].dt}}
+    LET fv == Nd(L).fv
+        K == IF F.nbad = 0 THEN 1 ELSE F.nbad IN
+    {[x |-> x, kind |-> "const-shape", id |-> c] : c \in SmallestK({c \in ConstIds : ConstPool[c].sh # ArgPool[x].sh /\ ConstPool[c].dt = ArgPool[x].dt}, K)}
+    \cup {[x |-> x, kind |-> "const-dtype", id |-> c] : c \in SmallestK({c \in ConstIds : ConstPool[c].sh = ArgPool[x].sh /\ ConstPool[c].dt # ArgPool[x].dt}, K)}
+    \cup {[x |-> x, kind |-> "argobj-shape", id |-> b] : b \in SmallestK({b \in ArgIds : ArgPool[b].sh # ArgPool[x].sh /\ ArgPool[b].dt = ArgPool[x].dt}, K)}
+    \cup {[x |-> x, kind |-> "argobj-dtype", id |-> b] : b \in SmallestK({b \in ArgIds : ArgPool[b].sh = ArgPool[x].sh /\ ArgPool[b].dt # ArgPool[x].dt}, K)}
     \* by NAME an argument takes the shape of the one it replaces: refusal is demanded only when the function
     \* already has an argument of that name with another shape or dtype
     \cup {[x |-> x, kind |-> "name-clash", id |-> b] : b \in {b \in fv \ {x} : ArgPool[b].sh # ArgPool[x].sh \/ ArgPool[b].dt # ArgPool[x].dt}}
